@@ -1,5 +1,7 @@
 """py2coq table for C20: constraint predicates (tools/parameter.py), the class-level constraint declarations of the four
-Parameters classes, and the derived-field expressions, generated TWICE (from __init__ and from initialisation)."""
+Parameters classes, and the derived-field expressions, generated TWICE (from __init__ and from initialisation) -> GenC20Params;
+the default_calibration table and the bodies of the calibration helpers of model/utils.py as a heap program (emitters of
+harness/py2coq_c20.py) -> GenC20Calib."""
 
 PARAM = "rpylib/tools/parameter.py"
 HEM = "rpylib/model/levymodel/mixed/hem.py"
@@ -73,4 +75,29 @@ SPECS = {
         + derived(CGMY, "CGMYParameters", "cgmy", CGMY_ARGS, ["_CGammamY", "_MpowerY", "_GpowerY"])
         + derived(BSF, "BlackScholesParameters", "bs", [("sigma", "Q")], ["variance"]),
     },
+}
+
+# ----------------------------------------------------------------------------- model/utils.py: the calibration helpers
+UTILS = "rpylib/model/utils.py"
+CALIB_HEADER = ("From Coq Require Import ZArith QArith Qminmax Qabs Bool List.\n"
+                "From RV Require Import Base.QB Gen.GenC20Params Model.Params Model.ParamsHeap.\nOpen Scope Q_scope.\n")
+SPECS["GenC20Calib"] = {
+    "file": UTILS,
+    "dom": "Q",
+    "header": CALIB_HEADER,
+    # the heap program is generic in the parameter class (instantiated per class in Proofs/C20_Calib.v)
+    "section": [("Rec", "Type"), ("Field", "Type"), ("set", "Rec -> Field -> Q -> Rec * bool"), ("initialisation", "Rec -> outcome Rec"),
+                ("price", "Rec -> Q"), ("dflt", "Rec")],
+    "funcs": [
+        # default_calibration = {ModelType.X: DefaultCalibrationConfiguration(field, (lo, hi))}: dc_<cls>_field / _lo / _hi
+        {"emitter": "py2coq_c20:default_table", "py": "default_calibration",
+         "classes": {"HEM": ("hem", "HemField", {"sigma": "HSigma", "p": "HP", "eta1": "HEta1", "eta2": "HEta2", "intensity": "HIntensity"}),
+                     "MERTON": ("merton", "MertonField", {"sigma": "MSigma", "mu_j": "MMuJ", "sigma_j": "MSigmaJ", "intensity": "MIntensity"}),
+                     "CGMY": ("cgmy", "CgmyField", {"c": "CC", "g": "CG", "m": "CM", "y": "CY"}),
+                     "VG": ("vg", "VgField", {"sigma": "VSigma", "nu": "VNu", "theta": "VTheta"})}},
+        # bodies of calibrate_model_parameter (+ inner calibration_fun), calibrate_model_parameter_to_atm_call, run_default_calibration
+        # as a program over the heap operations of Model/ParamsHeap.v: gen_calibration_fun, gen_calibrate_model_parameter,
+        # gen_run_default_calibration
+        {"emitter": "py2coq_c20:heap_program", "py": "calibrate_model_parameter"},
+    ],
 }
